@@ -104,6 +104,8 @@ def build_corpus(pkg, def_files, strum_features=("derive",), release=False, max_
     reported (an in-domain definition that does not compile is a finding, decided by the caller).
     Returns (exe path or None, {def id: [error messages]})."""
     ids = sorted(def_files)
+    if core.only_defs() is not None:
+        ids = [i for i in ids if i in core.only_defs()]
     failed = {}
     for rnd in range(max_rounds):
         files = {"d%d.rs" % i: def_files[i] for i in ids}
@@ -152,6 +154,8 @@ def group_by_def(defs_by_id, events):
         per.setdefault(e["def"], []).append(e)
     groups = []
     for did in sorted(per):
+        if did not in defs_by_id:
+            continue
         groups.append([dict(op="def", d=defs_by_id[did])] + per[did])
     return groups
 
